@@ -315,6 +315,38 @@ def check(chk):
         sv_ = [n for n, c in aucfg.calls_named("save_all")]
         ok = len(sv_) == 1 and not aucfg.guards_at(sv_[0].id) and aucfg.must_pass(aucfg.entry.id, [sv_[0].id], ends=[aucfg.exit.id]) is None
         chk.ob("DOM-38", "%s hands the updated earnings to the data manager on every path" % nm, ok, am_.where(), construct=am_.ident, text="audit saved " + nm)
+    # the coin handlers are registered once: whoever registers them (credit play can be switched on by an event while it is already on)
+    # has removed the previous registration first, on every path; a second set of handlers counts and audits every coin twice
+    n_reg = 0
+    for m_ in cr.methods.values():
+        rcfg = None
+        for c_ in m_.calls():
+            if call_attr(c_) != "_enable_credit_handlers":
+                continue
+            rcfg = rcfg or m_.cfg()
+            n_reg += 1
+            chk.analysed(m_)
+            here = [n for n, cc in rcfg.calls_named("_enable_credit_handlers") if cc is c_]
+            dis = [n.id for n, cc in rcfg.calls_named("_disable_credit_handlers")]
+            ok = bool(here) and bool(dis) and any(rcfg.dominates(d, here[0].id) for d in dis)
+            chk.ob("DOM-38", "Credits.%s registers the coin handlers only after removing a previous registration (a coin is counted by one handler)" % m_.name, ok,
+                   m_.where(c_), detail="enable_credit_play posted while credit play is on would add a second set of switch handlers: every coin credits and audits twice",
+                   construct=m_.ident, text="coin handlers registered without removing the old ones in " + m_.name)
+    chk.ob("DOM-38", "coin handler registrations examined (%d)" % n_reg, n_reg >= 1, cr.methods["_enable_credit_handlers"].where(), nontrivial=False)
+    dh = cr.methods["_disable_credit_handlers"]
+    chk.analysed(dh)
+    ok = any(call_attr(c_) == "remove_switch_handler_by_keys" and [src(a) for a in c_.args] == ["self._switch_handlers"] for c_ in dh.calls()) and \
+        any(isinstance(x, ast.Assign) and src(x.targets[0]) == "self._switch_handlers" and src(x.value) in ("[]", "list()") for x in walk_local(dh.node)) and \
+        any(call_attr(c_) == "remove_handler" and [src(a) for a in c_.args] == ["self._credit_event_callback"] for c_ in dh.calls())
+    chk.ob("DOM-38", "removing the coin handlers removes every remembered switch handler, forgets them and removes the credit event handler", ok, dh.where(),
+           construct=dh.ident, text="coin handlers removal")
+    eh = cr.methods["_enable_credit_handlers"]
+    chk.analysed(eh)
+    adds = [c_ for c_ in eh.calls() if call_attr(c_) == "add_switch_handler_obj"]
+    kept = [c_ for c_ in eh.calls() if call_attr(c_) == "append" and src(c_.func.value) == "self._switch_handlers" and c_.args and c_.args[0] in adds]
+    chk.ob("DOM-38", "every coin / service switch handler that is registered is remembered for removal", len(adds) >= 2 and len(kept) == len(adds), eh.where(),
+           construct=eh.ident, text="coin handlers remembered")
+
     # the pricing table is rebuilt from scratch every time it is calculated (the mode is restarted after service): what the loop carries
     # from tier to tier starts at zero, the table starts empty
     pt_ = cr.methods["_calculate_pricing_tiers"]
@@ -480,6 +512,7 @@ def battery():
         M("a stored falsy setting falls back to the default", "mpf/core/settings_controller.py", "        if not self.machine.variables.is_machine_var(self._settings[setting_name].machine_var):\n            value = self._settings[setting_name].default\n        else:\n            value = self.machine.variables.get_machine_var(self._settings[setting_name].machine_var)\n", "        value = self.machine.variables.get_machine_var(self._settings[setting_name].machine_var)\n        if not value:\n            value = self._settings[setting_name].default\n", "TABLE-10"),
         M("coin at the credit cap not audited", CR, "        self._add_credit_units(credit_units=value / self.credit_unit)\n        self._audit(value, audit_class, key_name)", "        if self._add_credit_units(credit_units=value / self.credit_unit):\n            self._audit(value, audit_class, key_name)", "DOM-38"),
         M("tier wrap-around carried over from the previous table", CR, "        self.pricing_tiers_wrap_around = 0\n        pricing_tiers = []", "        pricing_tiers = []", "TIER-1"),
+        M("coin handlers registered a second time (F20 reverted)", CR, "        self._disable_credit_handlers()\n        self._enable_credit_handlers()", "        self._enable_credit_handlers()", "DOM-38"),
     ]
 
 
